@@ -175,3 +175,24 @@ func (p *pkgInfo) writeSet(funcs map[string]bool) []string {
 	sort.Strings(out)
 	return out
 }
+
+// goStmts lists the functions that start goroutines.
+func (p *pkgInfo) goStmts() []string {
+	var out []string
+	for _, f := range p.files {
+		for _, d := range f.Decls {
+			fd, ok := d.(*ast.FuncDecl)
+			if !ok || fd.Body == nil {
+				continue
+			}
+			ast.Inspect(fd.Body, func(n ast.Node) bool {
+				if _, ok := n.(*ast.GoStmt); ok {
+					out = append(out, fd.Name.Name)
+				}
+				return true
+			})
+		}
+	}
+	sort.Strings(out)
+	return out
+}
